@@ -144,6 +144,123 @@ def sender_case(idxs):
         cw.close()
 
 
+def refusable_sends():
+    """descriptors where the library has no way (or may have none) to take
+    them along: inside a variant of a call, in a return value, in a signal.
+    Either the operation is refused (an exception, a failed Deferred, an
+    error reply - and then no message naming a descriptor is written), or
+    what is written is right: as many descriptors handed to the transport
+    ahead of the message as its header declares, the body's indexes
+    resolving to them"""
+    from twisted.internet import defer
+    from txdbus import objects as O, interface as I
+    viol = []
+
+    class FD(int):
+        dbusSignature = 'h'
+
+    def judge(tag, log, what):
+        groups, cur = [], []
+        for e in log:
+            if e[0] == 'fd':
+                cur.append(e[1])
+            elif e[0] == 'w':
+                groups.append((cur, e[1]))
+                cur = []
+        if cur:
+            viol.append(('refusable/%s/fd-after-bytes' % tag,
+                         '%s: descriptors %r sent after the last bytes'
+                         % (what, cur)))
+        for sent, raw in groups:
+            for one in R.split_stream(raw):
+                try:
+                    p = R.parse_message(one, fds=sent)
+                except R.RefError as e:
+                    viol.append(('refusable/%s/dangling' % tag,
+                                 '%s: wrote a message that does not hold '
+                                 'together with the %d descriptor(s) sent '
+                                 'ahead of it: %s' % (what, len(sent), e)))
+                    continue
+                if p['fields'].get('unix_fds', 0) != len(sent) and \
+                        ('h' in (p['fields'].get('signature') or '')
+                         or sent):
+                    viol.append(('refusable/%s/declared-count' % tag,
+                                 '%s: the message declares %r descriptors, '
+                                 '%d were handed over'
+                                 % (what, p['fields'].get('unix_fds', 0),
+                                    len(sent))))
+    cases = [('variant', 'v', [FD(6)]), ('hv', 'hv', [4, FD(6)]),
+             ('a{sv}', 'a{sv}', [{'out': FD(7)}]),
+             ('av', 'hav', [3, [FD(8), 'x']])]
+    for tag, sig, body in cases:
+        cw = fakes.ClientWorld(unix=True)
+        try:
+            start = len(cw.transport.log)
+            try:
+                d = cw.conn.callRemote('/p', 'M', interface='a.b',
+                                       destination='c.d', signature=sig,
+                                       body=body)
+                if isinstance(d, defer.Deferred):
+                    d.addErrback(lambda f: None)
+            except Exception:
+                pass
+            judge('call-' + tag, cw.transport.log[start:],
+                  'callRemote with signature %r and a descriptor inside a '
+                  'variant' % sig)
+        finally:
+            cw.close()
+    # a method declared to return a descriptor, a signal carrying one
+    for kind in ('return', 'return-later', 'signal'):
+        cw = fakes.ClientWorld(unix=True)
+        try:
+            ifc = I.DBusInterface('org.ex.Fd', I.Method('Open', 's', 'h'),
+                                  I.Method('Pair', '', 'hs'),
+                                  I.Signal('Ready', 'h'), noRegister=True)
+            held = []
+
+            class Obj(O.DBusObject):
+                dbusInterfaces = [ifc]
+
+                def dbus_Open(self, name):
+                    if kind == 'return-later':
+                        d = defer.Deferred()
+                        held.append(d)
+                        return d
+                    return 9
+
+                def dbus_Pair(self):
+                    return (5, 'x')
+            o = Obj('/fd')
+            cw.conn.exportObject(o)
+            cw.transport.take()
+            start = len(cw.transport.log)
+            try:
+                if kind == 'signal':
+                    o.emitSignal('Ready', 11)
+                else:
+                    cw.conn.dataReceived(R.encode_message(
+                        1, 77, {'path': '/fd', 'member': 'Open',
+                                'interface': 'org.ex.Fd',
+                                'sender': ':1.9', 'destination': ':1.7'},
+                        's', ['n']))
+                    for d in held:
+                        d.callback(12)
+                    cw.conn.dataReceived(R.encode_message(
+                        1, 78, {'path': '/fd', 'member': 'Pair',
+                                'interface': 'org.ex.Fd',
+                                'sender': ':1.9', 'destination': ':1.7'}))
+            except Exception:
+                pass
+            judge(kind, cw.transport.log[start:],
+                  {'signal': 'emitSignal with a descriptor argument',
+                   'return': 'a method returning a descriptor',
+                   'return-later': 'a method whose Deferred fires with a '
+                                   'descriptor'}[kind])
+        finally:
+            cw.close()
+    return viol
+
+
 # ---------------------------------------------------------------------------
 # receiver
 
@@ -520,6 +637,16 @@ MANY_FDS = [(16,), (17,), (253,), (254,), (255,), (256,), (257,), (1024,),
 
 def _task_many_fds(counts):
     res = core.Result()
+    if counts == 'refusable':
+        res.count('states', 7)
+        res.count('transitions', 7)
+        res.count('evaluations', 7)
+        res.count('traces', 7)
+        res.count('nontrivial', 7)
+        for tag, what in refusable_sends():
+            res.violation('%s/sender/%s' % (PROP, tag), what,
+                          {'part': 'refusable'}, size=1)
+        return res
     for mode in ('ahead', 'each'):
         for little in (True, False):
             res.count('states')
@@ -551,7 +678,9 @@ def run(ctx):
         'message, and schedules in which the first descriptors arrive '
         'before the read that completes the handshake (BEGIN alone or in one '
         'read with message bytes); a trailing probe message checks that exactly the declared '
-        'count was consumed. Nested delivery: the handler of a message '
+        'count was consumed. Descriptors inside variants of calls, in '
+        'return values and in signals: refused, or written with the '
+        'descriptors attached and declared. Nested delivery: the handler of a message '
         'takes delivery of everything still to come before it returns. '
         'Messages carrying 16..1024 descriptors each '
         '(one to three in a row), all descriptors ahead of the first read or '
@@ -566,10 +695,13 @@ def run(ctx):
     n = ctx.jobs * 3
     ctx.map(_task_send, [(i, n) for i in range(n)])
     ctx.map(_task_recv, [(ctx.quick, i, n) for i in range(n)])
-    ctx.map(_task_many_fds, MANY_FDS)
+    ctx.map(_task_many_fds, MANY_FDS + ['refusable'])
 
 
 def replay(data):
+    if data['part'] == 'refusable':
+        return [('%s/sender/%s' % (PROP, t), w) for t, w in
+                refusable_sends()]
     if data['part'] == 'many':
         a = data['args']
         return [('%s/receiver/%s' % (PROP, t), w)
